@@ -35,9 +35,13 @@ def summarize_case(case, facts):
         for r in case["plan"].get("rules", [])
     ]
     done = {}
-    for f in facts.futs.values():
+    handed = facts.handed_out()
+    for name, f in facts.futs.items():
         d = f["done"]
-        st = "pending" if d is None else d["state"] + (":" + d["exc"]["type"] if d.get("exc") else "")
+        if d is None:
+            st = "pending" if name in handed else "submit_raised_or_open"
+        else:
+            st = d["state"] + (":" + d["exc"]["type"] if d.get("exc") else "")
         done[st] = done.get(st, 0) + 1
     return {
         "meta": case.get("meta"),
@@ -130,9 +134,13 @@ class TreeCheck:
             cov["processes_observed"] += len(facts.procs)
             cov["ops_observed"] += len(facts.ops)
             cov["events_observed"] += len(hist.events)
-            for f in facts.futs.values():
+            handed_ = facts.handed_out()
+            for name_, f in facts.futs.items():
                 d = f["done"]
-                st = "pending" if d is None else d["state"] + (":" + d["exc"]["type"] if d.get("exc") else "")
+                if d is None:
+                    st = "pending" if name_ in handed_ else "submit_raised_or_open"
+                else:
+                    st = d["state"] + (":" + d["exc"]["type"] if d.get("exc") else "")
                 cov["future_outcomes"][st] = cov["future_outcomes"].get(st, 0) + 1
             planned = [r for r in case["plan"].get("rules", []) if r.get("action", [""])[0] in ("sleep", "kill", "exit", "cexit", "signal")]
             cov["faults_planned"] += len(planned)
